@@ -92,6 +92,11 @@ def gen_config(rng, hostpool):
         cfg['explicit_none_passed'] = True       # add_view(.., require_csrf=None) spelled out
     if cfg['exception_only'] and explicit is False and 'view_class' not in cfg and 'route' not in cfg and rng.random() < 0.5:
         cfg['exc_api'] = True                    # registered through add_exception_view (which opts out itself)
+    if 'view_class' not in cfg and 'route' not in cfg and not cfg.get('exc_api') and rng.random() < 0.06:
+        # the view under test is the application's Not Found / Forbidden view (add_notfound_view / add_forbidden_view)
+        cfg.update(exception_only=True, explicit=False, special=rng.choice(['notfound', 'forbidden']))
+        cfg.pop('explicit_none_passed', None)
+        explicit = False
     d_ = cfg['defaults']
     if d_ is not None and rng.random() < 0.35:
         d_['positional'] = rng.choice([1, 2, 3, 4, 5, 6, 6, 6, 7])   # that many leading options passed POSITIONALLY
@@ -398,6 +403,14 @@ def canonical_cases():
             out.append({'config': dict(cfg, view_class={'how': how, 'require_csrf': cv}), 'caller': None, 'raises': False,
                         'reqs': [_req('a.example.com', origin='https://a.example.com'),
                                  _req('a.example.com', origin='https://evil.com', header_tok='a1b2c3d4')]})
+    # last round: Not Found / Forbidden / exception views registered through their own directives are never checked
+    for sp in ({'special': 'notfound'}, {'special': 'forbidden'}, {'exc_api': True}):
+        for d in (None, {'require_csrf': True}, {'require_csrf': True, 'check_origin': True, 'safe_methods': []}):
+            out.append({'config': dict(base_cfg, explicit=False, exception_only=True, defaults=d, **sp), 'caller': None,
+                        'raises': False,
+                        'reqs': [_req('a.example.com', origin='https://evil.com'),
+                                 _req('a.example.com', origin='https://a.example.com', header_tok='a1b2c3d4'),
+                                 _req('a.example.com', method='GET')]})
     # round 7: a trusted origin revoked / added in the running application; the setting added after the views were committed
     part = _req('a.example.com', origin='https://partner.example', header_tok='a1b2c3d4')
     for storage in ('session', 'cookie'):
